@@ -20,7 +20,7 @@ import vidrive
 from editor import run_vi, lines_of, txt, gen_scripts
 from concurrent.futures import ThreadPoolExecutor
 
-SIZES = [(2, 2), (2, 80), (3, 5), (5, 14), (24, 80), (24, 3), (50, 132), (8, 24), (24, 80), (4, 40)]
+SIZES = [(2, 2), (2, 80), (3, 5), (5, 14), (24, 80), (24, 3), (50, 132), (8, 24), (24, 80), (4, 40), (10, 700), (60, 300)]
 UNI = ["é", "漢字", "á", "שלום", "مرحبا", "‍", "‌", "😀", "ｆｕｌｌ", "الله", "\t", "ß", "אָ", "x̀́̂",
        "\U0001f468‍\U0001f469", "　", " ", " ", "﻿", "\U0010ffff", "ـ"]
 FILES = ["", "one\n", "no newline at end", "a\nb\nc\nd\ne\nf\ng\nh\ni\nj\nk\nl\nm\nn\no\np\nq\nr\ns\nt\nu\nv\nw\nx\ny\nz\n",
@@ -125,7 +125,7 @@ def run_stream(ctx, st, safebin):
     with open(os.path.join(work, "other"), "w", encoding="utf-8") as f:
         f.write("other file\nשלום\n")
     R, C = st["size"]
-    recs, rc, err, to, _ = run_vi(ctx, args, body + tail, timeout=st.get("timeout", 20), cwd=work, fsize=150 << 20,
+    recs, rc, err, to, _ = run_vi(ctx, args, body + tail, timeout=st.get("timeout", 20 + len(body) // 60), cwd=work, fsize=150 << 20,
                                   env_extra={"LINES": str(R), "COLUMNS": str(C), "EXINIT": st["exinit"], "LD_PRELOAD": safebin})
     shutil.rmtree(work, True)
     complete = bool(recs) and recs[-1].get("ev") == "exit" and rc == 0 and not to
@@ -390,6 +390,8 @@ def main(ctx, args):
                        "work proportional to a typed count is not a hang: a vi stream with a count of 10^8 or more that exceeds the time bound is inconclusive, not a violation",
                        "streams whose patterns loop over an empty-matching group are set aside (known finding of C11: the matcher backtracks without bound); "
                        "one corpus stream replays it",
+                       "the time bound grows with the length of the stream (20 s + 1 s per 60 bytes on the sanitizer build): re-rendering a 9000-character "
+                       "line on every key is slow, not stuck",
                        "typed text, patterns and files are valid UTF-8, as the property states"])
 
 
